@@ -1072,6 +1072,38 @@ func (c *Ctx) c07DotsInNames() {
 			}
 		})
 	}
+	// V18: "…reproduces the same relative paths … names over spaces, dots — including leading and doubled dots". An element of
+	// an entry's name is the parent reference only where it *is* "..": the comparison is made on the element as it stands in
+	// the name, not on what a clean-up (TrimSpace, ToLower, a replacement) made of it — `.. ` is a legal name that the zip
+	// side archives, and refused as a zip-slip attempt it breaks the round trip.
+	c.rule("V18", "in the extraction's zip-slip test an element of a name is compared with \"..\" as it stands in the name: the compared value is not the result of a call (TrimSpace, ToLower, Replace …)", 1)
+	nCmp := 0
+	badCmp := ""
+	for _, name := range []string{"hasParentReference", "sanitiseZipExtractPath", "(*VFS).unzip", "determineUnzippedFilepath"} {
+		f := c.fnOpt(fsPkgRel, name)
+		if f == nil {
+			continue
+		}
+		withAnon(f, func(h *ssa.Function) {
+			allInstrs(h, func(in ssa.Instruction) {
+				bo, ok := in.(*ssa.BinOp)
+				if !ok || (bo.Op != token.EQL && bo.Op != token.NEQ) {
+					return
+				}
+				for _, pair := range [][2]ssa.Value{{bo.X, bo.Y}, {bo.Y, bo.X}} {
+					if k, isK := constString(pair[1]); isK && k == ".." {
+						nCmp++
+						c.FuncsSeen[fname(f)] = true
+						if cl, isCall := stripConv(pair[0]).(*ssa.Call); isCall {
+							badCmp = c.ipos(bo) + " (" + short(calleeFull(&cl.Call)) + ")"
+						}
+					}
+				}
+			})
+		})
+	}
+	c.check(nCmp > 0 && badCmp == "", "V18", "filesystem.hasParentReference/element-compared-as-it-stands", c.pos(c.fn(fsPkgRel, "sanitiseZipExtractPath").Pos()), "the element compared with \"..\" is the element of the name itself",
+		"the value compared with \"..\" at "+badCmp+" is what a call made of the element, not the element: a file or directory named `.. ` (two dots and a space — a legal name, archived as such by the zip side) is refused as a zip-slip attempt, and zipping a tree and unzipping the result fails")
 	if n == 0 {
 		c.fatalf("C07/Z5: extraction functions not found")
 		return
